@@ -216,7 +216,7 @@ pub fn run(ctx: &mut Ctx) {
 			ctx,
 			fam,
 			n,
-			|| (gen::arb_value(gen::ValueCfg::MEDIUM), gen::arb_choices()),
+			|| (gen::arb_doc_value(gen::ValueCfg::MEDIUM), gen::arb_choices()),
 			|(v, ch)| {
 				let text = gen::render_doc(v, ch, gen::RenderCfg { ws_max: 4, free_escapes: true });
 				match property(&text, true) {
